@@ -380,6 +380,10 @@ def raw_operand_uses(t: Term, params: set[str]) -> list[Term]:
             if x[1] in params and parent is not None and parent[0] in ("binop", "cmp", "unop", "bool") and not (parent[0] == "cmp" and set(parent[1]) <= {"is", "is not"}):
                 out.append(parent)
             return
+        if x[0] == "phi":  # one of several values (the returns of an inlined helper, the branches of an if): each is an operand of the enclosing operator
+            for c in x[1:]:
+                rec(c, parent)
+            return
         for c in x[1:]:
             rec(c, x)
 
@@ -402,7 +406,9 @@ def coerce_first(check, fn, rule: str, construct: str) -> bool:
         if e is None:
             continue
         n_ret += 1
-        for u in raw_operand_uses(r.term(e, n), params):
+        from ..absint import inline_private_helpers
+
+        for u in raw_operand_uses(inline_private_helpers(check.program, r.term(e, n)), params):
             bad.append((n, u))
     if not n_ret:
         return True
